@@ -35,6 +35,7 @@ import queue
 import re
 import shutil
 import subprocess
+import threading
 
 from . import common
 from . import fs_snapshot as fss
@@ -174,13 +175,20 @@ def entries_for(spec, in_dir):
 # ---------------------------------------------------------------------------------------------------------------
 # pulled in through symbolic links: a linked file (shared license header), a linked macro file, and files below a linked
 # sub-directory (include, import, and an extends chain whose base sits next to it)
+# hidden places: a dot-folder, a dot-file, and a dot-folder inside a sub-folder (include / import)
+HIDDEN_SNIPPET = ('{% include ".shared/banner.j2" %}{% include ".hidden_part.j2" %}'
+                  '{% from "macros/.private/pm.j2" import pmac %}{{ pmac("p") }}')
+HIDDEN_FILES = {".shared/banner.j2": "hidden-folder-banner\n", ".hidden_part.j2": "hidden-file-part\n",
+                "macros/.private/pm.j2": "{% macro pmac(n) %}<<{{ n }}>>{% endmacro %}\n", ".shared/.unused.j2": "never used\n"}
 LINK_SNIPPET = ('{% include "license_header.j2" %}{% import "macros/linked_util.j2" as c08l %}{{ c08l.ltag("l") }}'
                 '{% include "linked/part.j2" %}{% from "linked/m.j2" import lwrap %}{{ lwrap("w") }}{% include "linked/child.j2" %}')
 
 
 def add_linked_templates(dest):
-    """Targets live outside the templates directory (siblings below in/); the directory gets only the links."""
+    """Targets live outside the templates directory (siblings below in/); the directory gets only the links.
+    Also writes the hidden files / folders."""
     dest = pathlib.Path(dest)
+    _write_tree(dest, HIDDEN_FILES)
     lf, ld = dest.parent / "tpl_linked_files", dest.parent / "tpl_linked_dir"
     _write_tree(lf, {"license_header.j2": "shared-license\n", "linked_util.j2": "{% macro ltag(n) %}<l {{ n }}>{% endmacro %}\n"})
     _write_tree(ld, {"part.j2": "linked-dir-part\n", "m.j2": "{% macro lwrap(n) %}({{ n }}){% endmacro %}\n",
@@ -198,7 +206,7 @@ TYPE_TEMPLATES = ("StructureType.j2", "UnionType.j2", "DelimitedType.j2", "Servi
 # chain, an import and an extends chain below sub-folders
 COPY_SNIPPET = ('{% include "helper.j2" %}{% include "extra/helper.j2" %}{% include "extra/more/helper.j2" %}'
                 '{% include "notes.txt" %}{% import "macros/util.j2" as c08u %}{{ c08u.tag("c08") }}'
-                '{% include "layouts/child.j2" %}' + LINK_SNIPPET)
+                '{% include "layouts/child.j2" %}' + LINK_SNIPPET + HIDDEN_SNIPPET)
 
 
 def _write_tree(dest, files):
@@ -248,7 +256,7 @@ def make_tpl_dir(kind, lang, pkg_lang_dir, dest):
         _write_tree(dest, {
             "Any.j2": "{% extends \"layouts/child.j2\" %}{% block body %}{% include \"header.j2\" %}"
                       "{% include \"parts/header.j2\" %}{% import \"macros/util.j2\" as u %}{{ u.tag(T.full_name) }}"
-                      "{% from \"macros/more/util.j2\" import wrap %}{{ wrap(\"x\") }}{% include \"data/values.txt\" %}" + LINK_SNIPPET + "{% endblock %}\n",
+                      "{% from \"macros/more/util.j2\" import wrap %}{{ wrap(\"x\") }}{% include \"data/values.txt\" %}" + LINK_SNIPPET + HIDDEN_SNIPPET + "{% endblock %}\n",
             "layouts/child.j2": "{% extends \"layouts/base.j2\" %}{% block top %}child-top{% endblock %}\n",
             "layouts/base.j2": "base[{% block top %}{% endblock %}|{% block body %}{% endblock %}]{% include \"parts/deep/header.j2\" %}\n",
             "header.j2": "top-header\n",
@@ -389,7 +397,8 @@ class Sandbox:
         write_namespace(self.spec, self.ind)
         self.tpl = self.stpl = None
         if cfg.get("tpl", "none") != "none":
-            self.tpl = self.ind / "tpl"
+            # the `tree` directory carries glob metacharacters in its own name (a name is a name, not a pattern)
+            self.tpl = self.ind / ("tpl[c]*?" if cfg["tpl"] == "tree" else "tpl")
             make_tpl_dir(cfg["tpl"], cfg["lang"], pkg_lang_dir, self.tpl)
         if cfg.get("stpl", "none") != "none":
             self.stpl = self.ind / "stpl"
@@ -921,6 +930,139 @@ class MutationSearch:
 
 
 # ---------------------------------------------------------------------------------------------------------------
+# in-process API stream: listing and generating methods called repeatedly on the SAME generator objects
+# ---------------------------------------------------------------------------------------------------------------
+API_SEQUENCES = ["DTG", "DGT", "TDG", "TGD", "GDT", "GTD", "DDG", "DGG", "GDG", "GGD", "TTG", "DGD", "TGT"]
+
+
+def api_history(lang, omit, seq, work):
+    """One pair of generator objects (as ArgparseRunner builds them), the calls of `seq` in order:
+    D = generate_all(is_dryrun=True) on both, T = get_templates() on both, G = generate_all() on both (into an emptied
+    output directory).  Returns [(op, result sets, file-system diff)]."""
+    import pydsdl
+    from nunavut._generators import create_default_generators
+    from nunavut._namespace import build_namespace_tree
+    from nunavut.lang import LanguageContextBuilder
+    work = pathlib.Path(os.path.realpath(work))
+    root = work / "in" / "api"
+    if not root.exists():
+        write_namespace({"types": [T("api.One"), T("api.sub.Two", "union")]}, work / "in")
+    out = work / "out"
+    shutil.rmtree(out, ignore_errors=True)
+    lctx = LanguageContextBuilder(include_experimental_languages=True).set_target_language(lang).create()
+    tree = build_namespace_tree(pydsdl.read_namespace(str(root), []), str(root), str(out), lctx)
+    gen, sup = create_default_generators(tree)
+    res = []
+    for op in seq:
+        if op == "G":
+            shutil.rmtree(out, ignore_errors=True)
+        before = fss.snapshot([work])
+        if op == "D":
+            r = {"types": sorted(str(x) for x in gen.generate_all(is_dryrun=True, omit_serialization_support=omit)),
+                 "support": sorted(str(x) for x in sup.generate_all(is_dryrun=True, omit_serialization_support=omit))}
+        elif op == "T":
+            r = {"types": sorted(str(x) for x in gen.get_templates(omit_serialization_support=omit)),
+                 "support": sorted(str(x) for x in sup.get_templates(omit_serialization_support=omit))}
+        else:
+            sup.generate_all(omit_serialization_support=omit)
+            gen.generate_all(omit_serialization_support=omit)
+            r = None
+        after = fss.snapshot([work])
+        d = fss.diff(before, after)
+        if op == "G":
+            made = sorted(x for x in d.created if after[x].kind != "d")
+            sdir = str(out / pathlib.Path(*[c for c in lctx.get_target_language().support_namespace if c])) if lang != "py" else None
+            r = {"support": [m for m in made if (sdir and m.startswith(sdir + os.sep)) or (lang == "py" and os.path.basename(m) == "nunavut_support.py")]}
+            r["types"] = [m for m in made if m not in r["support"]]
+        res.append((op, r, d))
+    return res
+
+
+def api_stream(ctx_like, quick, work):
+    """Runs in a background thread; returns records for the main thread (no ctx mutation here)."""
+    records = []
+    combos = [("c", False), ("c", True), ("py", False), ("cpp", False)] if quick else [(l, o) for l in ("c", "cpp", "py", "html") for o in (False, True)]
+    seqs = API_SEQUENCES if quick else API_SEQUENCES + ["".join(t) for t in itertools.product("DTG", repeat=3) if "".join(t) not in API_SEQUENCES] + ["DGDGTD", "GGGDDD", "TDTGTD"]
+    n = 0
+    for lang, omit in combos:
+        w = pathlib.Path(work) / f"{lang}_{int(omit)}"
+        try:
+            ref = {op: api_history(lang, omit, op, w)[0][1] for op in "DTG"}   # each op as the FIRST call on fresh objects
+        except Exception as e:  # noqa
+            records.append(("error", lang, omit, "reference", repr(e)[:300]))
+            continue
+        for seq in seqs:
+            n += 1
+            try:
+                hist = api_history(lang, omit, seq, w)
+            except Exception as e:  # noqa
+                records.append(("error", lang, omit, seq, repr(e)[:300]))
+                continue
+            records.append(("history", lang, omit, seq, ref, hist))
+    return records
+
+
+def evaluate_api(ctx, records, drv, pkg_lang_dir):
+    for rec in records:
+        if rec[0] == "error":
+            ctx.disagree("api:error", {"lang": rec[1], "omit": rec[2], "sequence": rec[3]}, "no exception", rec[4])
+            continue
+        _, lang, omit, seq, ref, hist = rec
+        for i, (op, r, d) in enumerate(hist):
+            ctx.case(("api", lang, omit, seq, i), True)
+            ctx.count("api-calls")
+            ctx.traces += 1
+            inp = {"lang": lang, "omit": omit, "sequence": seq, "call": i, "op": op}
+            # the model is a function of the arguments only: the i-th call must answer like a first call on fresh objects
+            if r != ref[op]:
+                ctx.fail({"kind": "api-history-dependence", "op": op},
+                         "a listing / generating method answers differently when other calls were made on the same generator objects before",
+                         dict(inp, got={k: [os.path.basename(x) for x in v] for k, v in r.items()},
+                              first_call_on_fresh_objects={k: [os.path.basename(x) for x in v] for k, v in ref[op].items()}))
+            if op in "DT" and not d.empty:
+                ctx.fail({"kind": "side-effect", "mode": "api-" + op}, "a dry-run / get_templates call changed the file system", dict(inp, diff=d.as_dict()))
+        # the property inside one history: every dry-run list == the files of every real run
+        ds = [r for op, r, _ in hist if op == "D"]
+        gs = [r for op, r, _ in hist if op == "G"]
+        for dr in ds:
+            for gr in gs:
+                if dr != gr:
+                    ctx.fail({"kind": "api-dry-run-differs-from-generated"},
+                             "generate_all(is_dryrun=True) and generate_all() on the same objects disagree about the files",
+                             {"lang": lang, "omit": omit, "sequence": seq, "dry_run": {k: [os.path.basename(x) for x in v] for k, v in dr.items()},
+                              "created": {k: [os.path.basename(x) for x in v] for k, v in gr.items()}})
+                    break
+    # tie to the model: the first-call answers against the model's listing (types: gs=never; support: gs=only)
+    if drv is None:
+        return
+    done = set()
+    for rec in records:
+        if rec[0] != "history" or (rec[1], rec[2]) in done:
+            continue
+        _, lang, omit, seq, ref, hist = rec
+        done.add((lang, omit))
+        out = None
+        for v in ref["D"].values():
+            for x in v:
+                out = x
+        if out is None:
+            continue
+        work = out[:out.index("/out/")]
+        spec = {"root": "api", "lookups": [], "types": [T("api.One"), T("api.sub.Two", "union")]}
+        ents = entries_for(spec, work + "/in")
+        class _SB:  # the few attributes model_line needs
+            pass
+        for part, gsv in (("types", "never"), ("support", "only")):
+            sb = Sandbox.__new__(Sandbox)
+            sb.cfg = {"lang": lang, "gs": gsv, "omit": int(omit), "gnt": 0, "ext": None, "stem": None}
+            sb.pkg_lang_dir, sb.outarg, sb.tpl, sb.stpl, sb.entries = str(pkg_lang_dir), work + "/out", None, None, ents
+            m = parse_answer(drv.ask([sb.model_line("100")])[0])
+            ctx.traces += 1
+            if m is None or sorted(m["outputs"]) != ref["D"][part]:
+                ctx.disagree("api:model", {"lang": lang, "omit": omit, "part": part}, None if m is None else sorted(m["outputs"]), ref["D"][part])
+
+
+# ---------------------------------------------------------------------------------------------------------------
 # streams
 # ---------------------------------------------------------------------------------------------------------------
 def corpus_cfgs():
@@ -966,6 +1108,11 @@ def run(ctx: common.Ctx):
     src = common.REPO / "src"
     pkg_lang_dir = pathlib.Path(os.path.realpath(src / "nunavut" / "lang"))
     pkg_before = fss.snapshot([src / "nunavut"])
+
+    # ---- stream 4 (in-process, background thread): repeated API calls on the same generator objects ------------
+    api_box = {}
+    api_thread = threading.Thread(target=lambda: api_box.setdefault("records", api_stream(None, ctx.quick, ctx.scratch / "api")), daemon=True)
+    api_thread.start()
 
     # ---- stream 1: corpus + grid on the real package -------------------------------------------------------
     corpus = corpus_cfgs()
@@ -1017,6 +1164,11 @@ def run(ctx: common.Ctx):
             mcfgs.append(mc(l, "plain", tpl="tree", gnt=1))
     ctx.extra["domain"]["mutation_configurations"] = len(mcfgs)
     MutationSearch(ctx, specs, drv).run(mcfgs)
+    api_thread.join(timeout=600)
+    if "records" not in api_box:
+        ctx.disagree("api:error", {}, "finished", "the in-process API stream did not finish in time")
+    else:
+        evaluate_api(ctx, api_box["records"], drv, pkg_lang_dir)
     ctx.exhaustive = False
     if ctx.disagreements:
         ctx.extra["disagreement_samples"] = ctx.disagreements[:8]
